@@ -4,6 +4,7 @@ HERE=$(cd "$(dirname "$0")" && pwd)
 REV=""
 if [ "$1" = "-R" ]; then REV="-R"; shift; fi
 PATCH="$1"; shift
+export VERIF_EVIDENCE_DIR=/verif/work/campaign-evidence
 cd /repo || exit 2
 if ! git diff --quiet; then echo "repo dirty, refusing"; exit 2; fi
 git apply $REV "$PATCH" || { echo "patch does not apply"; exit 2; }
